@@ -68,18 +68,27 @@ class SemLock:
         if name is None:
             # Try to find an unused name for the SemLock instance.
             for _ in range(100):
+                sem_name = SemLock._make_name()
+                # Tell the resource tracker about the name before creating the
+                # semaphore: if this process is killed in between, the tracker
+                # still unlinks the semaphore once the process tree is gone.
+                resource_tracker.register(sem_name, "semlock")
                 try:
                     self._semlock = _SemLock(
-                        kind, value, maxvalue, SemLock._make_name(), unlink_now
+                        kind, value, maxvalue, sem_name, unlink_now
                     )
                 except FileExistsError:  # pragma: no cover
-                    pass
+                    resource_tracker.unregister(sem_name, "semlock")
+                except BaseException:
+                    resource_tracker.unregister(sem_name, "semlock")
+                    raise
                 else:
                     break
             else:  # pragma: no cover
                 raise FileExistsError("cannot find name for semaphore")
         else:
             self._semlock = _SemLock(kind, value, maxvalue, name, unlink_now)
+            resource_tracker.register(self._semlock.name, "semlock")
         self.name = name
         util.debug(
             f"created semlock with handle {self._semlock.handle} and name "
@@ -95,7 +104,6 @@ class SemLock:
 
         # When the object is garbage collected or the
         # process shuts down we unlink the semaphore name
-        resource_tracker.register(self._semlock.name, "semlock")
         util.Finalize(
             self, SemLock._cleanup, (self._semlock.name,), exitpriority=0
         )
